@@ -265,6 +265,8 @@ def dpor_extra_spaces(which):
                          "progs": dporcheck.space2(3, ["park", "ld", "st"], ["ld", "st"], ["x"], ["m"], 2, 1, unpark_to=(1, 2, 3))},
         "yield": lambda: {"label": "dporYield", "n": 3, "invariants": False, "progs": dporcheck.space(3, ["ld", "st", "csld", "yield"], ["x", "y"], ["m"], 2, 0)},
         "try": lambda: {"label": "dporTry", "n": 3, "invariants": False, "progs": dporcheck.space(3, ["ld", "st", "csld", "try"], ["x"], ["m"], 2, 0)},
+        # main joins every thread (JoinHandle::join = Notify::wait) and reads the locations afterwards
+        "join": lambda: {"label": "dporJoin", "n": 3, "progs": dporcheck.space_joined(3, ["ld", "st", "csst", "csld"], ["x", "y"], ["m"], 2, ["x", "y"])},
         "rw": lambda: {"label": "dporRw", "n": 3, "progs": dporcheck.space(3, ["rdld", "wrst", "wrld", "ld", "st"], ["x"], ["m"], 2, 0)},
         "rw4": lambda: {"label": "dporRw4", "n": 4, "progs": dporcheck.space(4, ["rdld", "wrst", "rdst"], ["x"], ["m"], 1, 0)},
         "rwtry": lambda: {"label": "dporRwTry", "n": 3, "invariants": False,
@@ -301,7 +303,7 @@ def C01(ctx):
     sync_family(ctx, progs)
     exhaustive_part(ctx, families.exhaustive_sync(), ("complete", "sound", "fails", "trace"), label="exh_sync")
     dpor_space(ctx, [None], ("C01",))
-    dpor_space(ctx, [None], ("C01",), quick_sample=60, spaces=dpor_extra_spaces(["chan"]))
+    dpor_space(ctx, [None], ("C01",), quick_sample=60, spaces=dpor_extra_spaces(["chan", "join"]))
 
 
 def C04(ctx):
